@@ -39,6 +39,25 @@ def ground_terms(fs, bound_ids=()):
     return by_sort
 
 
+def _apps_of(fs, decl, bound_ids=()):
+    out = {}
+    seen = set()
+    stack = list(fs)
+    did = decl.get_id() if hasattr(decl, 'get_id') else None
+    while stack:
+        t = stack.pop()
+        i = t.get_id()
+        if i in seen:
+            continue
+        seen.add(i)
+        if z3.is_quantifier(t):
+            continue
+        stack.extend(t.children())
+        if z3.is_app(t) and t.decl().eq(decl) and not _mentions(t, bound_ids):
+            out[i] = t
+    return list(out.values())
+
+
 def _mentions(t, ids):
     if not ids:
         return False
@@ -74,6 +93,17 @@ def instantiate(hyps, qhyps, goal, rounds=2, max_depth=2):
         new = []
         for qi, q in enumerate(qhyps):
             pools = []
+            if getattr(q, 'triggers', None):
+                for (decl, idx) in q.triggers:
+                    idxs = idx if isinstance(idx, (tuple, list)) else (idx,)
+                    for t in _apps_of(cur + [qq.body for qq in qhyps], decl, bound):
+                        combo = tuple(t.arg(i) for i in idxs)
+                        key = (qi,) + tuple(a.get_id() for a in combo)
+                        if key in done:
+                            continue
+                        done.add(key)
+                        new.append(z3.substitute(q.body, *zip(q.vars, combo)))
+                continue
             for v in q.vars:
                 pool = [t for t in gt.get(v.sort().name(), {}).values() if _depth(t) <= max_depth]
                 pools.append(pool)
